@@ -12,7 +12,8 @@
  * -DVALID=1|2 (sanity / every truncation of a valid encoding): NV symbolic
  *   values are encoded by the REAL encoder; decoding with the exact encoded
  *   length returns the input; decoding any strict prefix reports the
- *   documented error (0 / NULL). 1 = DecodeInto, 2 = Decode. */
+ *   documented error (0 / NULL). 1 = DecodeInto, 2 = Decode; -DPART=0 the
+ *   exact length, -DPART=1 the strict prefixes. */
 #include "vp.h"
 #include "varintDict.h"
 
@@ -105,15 +106,22 @@ void harness(void) {
     size_t written = varintDictEncode(enc, vals, NV);
     VP_ASSERT("P:dict.valid_encoder_size", written >= 3 + NV && written <= sizeof(enc));
     VP_ASSUME(cut >= 1 && cut <= written);
+#ifndef PART
+#define PART 0
+#endif
 #if VALID == 1
     uint64_t *out = vp_exact(NV * sizeof(uint64_t));
+#if PART == 0
     size_t d = varintDictDecodeInto(enc, written, out, NV);
     VP_ASSERT("P:dict.valid_into_count", d == NV);
     for (int i = 0; i < NV; i++)
         VP_ASSERT("P:dict.valid_into_values", out[i] == vals[i]);
+#else
     size_t t = varintDictDecodeInto(enc, written - cut, out, NV);
     VP_ASSERT("P:dict.valid_truncated_into_reports_0", t == 0);
+#endif
 #else
+#if PART == 0
     size_t cnt = 77;
     uint64_t *o = varintDictDecode(enc, written, &cnt);
     VP_ASSERT("P:dict.valid_decode_nonnull", o != 0);
@@ -124,34 +132,39 @@ void harness(void) {
                 VP_ASSERT("P:dict.valid_decode_values", o[i] == vals[i]);
         free(o);
     }
+#else
     size_t c2 = 77;
     uint64_t *o2 = varintDictDecode(enc, written - cut, &c2);
     VP_ASSERT("P:dict.valid_truncated_decode_reports_null", o2 == 0);
     if (o2)
         free(o2);
 #endif
+#endif
     VP_ASSERT("P:dict.valid_no_leak", vp_live == 0);
 #else
     VP_IN_ARR(uint8_t, in, L);
 #if defined(DS) && L > 0
-    /* case split on the announced dictionary size (first byte). Exhaustive:
-     * DS = 0 .. DSREST-1 one single-byte size each (DSREST = L-1 is the first
-     * size that cannot be followed by a count and an index), DS = DSREST every
-     * larger single-byte size (first byte DSREST..240), DS = DSREST+1 every
-     * multi-byte size field (first byte 241..255, any announced size incl.
-     * non-minimal encodings of small ones). */
-#if DS < DSREST
+    /* case split on the first byte of the dictionary-size field. Exhaustive:
+     * DS = 0 .. DSREST-1 : that single-byte size (DSREST = L-1 is the first
+     *                      size that cannot be followed by a count and an index);
+     * DS = DSREST        : every larger single-byte size (first byte DSREST..240);
+     * DS = 241 / 249 / 250 : multi-byte size field of 2 bytes (first byte
+     *                      241..248), 3 bytes (249), 4..9 bytes (250..255): any
+     *                      announced size, incl. non-minimal encodings of small ones. */
+#if DS < DSREST || DS == 249
     VP_ASSUME(in[0] == DS);
 #elif DS == DSREST
     VP_ASSUME(in[0] >= DSREST && in[0] <= 240);
+#elif DS == 241
+    VP_ASSUME(in[0] >= 241 && in[0] <= 248);
 #else
-    VP_ASSUME(in[0] >= 241);
+    VP_ASSUME(in[0] >= 250);
 #endif
 #endif
     uint8_t *buf = vp_exact(L);
     for (int i = 0; i < L; i++)
         buf[i] = in[i];
-#if defined(DS) && L > 0 && DS < DSREST
+#if defined(DS) && L > 0 && (DS < DSREST || DS == 249)
     buf[0] = DS; /* same value as in[0]; a literal lets symex fold the dictionary size */
 #endif
 #if INTO
